@@ -35,7 +35,8 @@ class PROP(Prop):
         return cs
 
     def build(self, proto, outcomes, rng):
-        slave = rng.randrange(1, 248)
+        # also the broadcast address 0 and the reserved ids: a device (or gateway, or simulator) that answers them is answered to
+        slave = rng.randrange(1, 248) if rng.random() < 0.7 else rng.choice([0, 0, 0, 248, 255])
         ops, expect, whole = [], [], []
         for i, o in enumerate(outcomes):
             req = simple_req(rng)
